@@ -132,4 +132,28 @@ theorem checkNilSafe_sound (body : Stmt) (hc : checkNilSafe body = true)
   rw [hrun, hag _ (by simp), hnil] at h
   simpa using h
 
+theorem grantsNothing_filter (env : Env) (l : List Atom) (h : ∀ p, env (.perm p) = false) :
+    grantsNothing (l.filter env) = true := by
+  unfold grantsNothing
+  rw [List.all_eq_true]
+  intro a ha
+  have := (List.mem_filter.1 ha).2
+  cases a with
+  | perm p => rw [h p] at this; simp at this
+  | payloadNil => rfl
+  | field f => rfl
+  | other n => rfl
+
+theorem checkNoPermNoMutation_sound (body : Stmt) (hc : checkNoPermNoMutation body = true)
+    (env : Env) (h : ∀ p, env (.perm p) = false) : noMutation (runCmd env body) = true := by
+  unfold checkNoPermNoMutation at hc
+  rw [List.all_eq_true] at hc
+  obtain ⟨hmem, hag⟩ := restrict_spec env (atomsS body)
+  have hh := hc _ hmem
+  have hrun : runCmd (valOf ((dedup (atomsS body)).filter env)) body = runCmd env body := by
+    unfold runCmd
+    rw [run_congr _ env body (fun a ha => hag a ha)]
+  rw [hrun, grantsNothing_filter env _ h] at hh
+  simpa using hh
+
 end RqModel.Wire
